@@ -156,7 +156,8 @@ Qed.
 Lemma el_add_array_inv e c w SR ms : el_inv e -> el_inv (fst (el_add_array e c w SR ms)).
 Proof.
   intro He. unfold el_add_array. destruct (add_markers (rle_len w) ms []) as [arrs good].
-  destruct good; unfold ok, fail; cbn [fst]; (apply el_inv_set; [exact He|]); cbn [ckind]; intros b' E; discriminate E.
+  destruct good; unfold ok, fail; cbn [fst]; [|exact He].
+  (apply el_inv_set; [exact He|]); cbn [ckind]; intros b' E; discriminate E.
 Qed.
 
 Lemma el_add_flags_inv e c fl : el_inv e -> el_inv (fst (el_add_flags e c fl)).
@@ -633,6 +634,16 @@ Proof.
   - apply onS_ok; [exact Hs|]. intros q Hq.
     apply (on_seq_elem_pres seq_inv el_inv); [exact seq_inv_upd| |exact Hq].
     intros e He. apply el_change_dur_inv; exact He.
+  - (* SElemAddBp *) destruct (getB st r) as [b|er] eqn:E; [|exact Hs].
+    apply onS_ok; [exact Hs|]. intros q Hq.
+    apply (on_seq_elem_pres seq_inv el_inv); [exact seq_inv_upd| |exact Hq].
+    intros e He. apply el_add_bp_inv; [eapply getB_ok; eassumption|exact He].
+  - (* SElemAddArray *) apply onS_ok; [exact Hs|]. intros q Hq.
+    apply (on_seq_elem_pres seq_inv el_inv); [exact seq_inv_upd| |exact Hq].
+    intros e He. apply el_add_array_inv; exact He.
+  - (* SElemAddFlags *) apply onS_ok; [exact Hs|]. intros q Hq.
+    apply (on_seq_elem_pres seq_inv el_inv); [exact seq_inv_upd| |exact Hq].
+    intros e He. apply el_add_flags_inv; exact He.
   - (* TVarying *) destruct (getE st e) as [x|er] eqn:E; [|exact Hs].
     destruct (make_varying x cs ns ars its) as [q|er] eqn:Em; [|exact Hs].
     apply putS_ok; [exact Hs|]. eapply make_varying_inv; [eapply getE_ok; eassumption|exact Em].
@@ -829,6 +840,10 @@ Proof.
     eapply ks_add; [eapply getS_keys; [exact Hs|exact E1]|eapply getS_keys; [exact Hs|exact E2]|exact Ea].
   - (* SCopy *) destruct (getS st s) as [x|er] eqn:E; [|exact Hs].
     apply putS_keys; [exact Hs|eapply getS_keys; eassumption].
+  - apply onS_keys; [exact Hs|]. intros q Hq. apply ks_on_seq_elem; exact Hq.
+  - apply onS_keys; [exact Hs|]. intros q Hq. apply ks_on_seq_elem; exact Hq.
+  - (* SElemAddBp *) destruct (getB st r) as [b|er]; [|exact Hs].
+    apply onS_keys; [exact Hs|]. intros q Hq. apply ks_on_seq_elem; exact Hq.
   - apply onS_keys; [exact Hs|]. intros q Hq. apply ks_on_seq_elem; exact Hq.
   - apply onS_keys; [exact Hs|]. intros q Hq. apply ks_on_seq_elem; exact Hq.
   - (* TVarying *) destruct (getE st e) as [x|er]; [|exact Hs].
